@@ -308,6 +308,10 @@ func Take[A any](ctx context.Context, in <-chan A, n int) <-chan A {
 	go func() {
 		defer close(out)
 
+		if n == 0 {
+			return
+		}
+
 		var a A
 		for a = range in {
 
